@@ -2,6 +2,7 @@
 # Builds the framework from files on disk only (offline): the whole Coq development (full .vo)
 # and the Rust harness against /repo.
 set -e
+python3 /verif/extract/dims.py /verif/coq/gen/DimsGen.v || exit 1
 cd /verif/coq
 coq_makefile -f _CoqProject -o Makefile > /dev/null 2>&1
 timeout 3400 make -j16 > /verif/work_setup_coq.log 2>&1 || { tail -30 /verif/work_setup_coq.log; echo "coq build failed"; exit 1; }
